@@ -279,6 +279,8 @@ type hook struct {
 	count       int
 	auths       []auth // acceptable configurations (more than one only after re-registering an inactive URL with other credentials: the statement does not say which one wins)
 	attempted   bool   // a delivery was attempted since the (re-)registration
+	attFrom     time.Time // the last attempt happened between these two readings of the clock
+	attTo       time.Time
 	lastOutcome string
 }
 
@@ -542,6 +544,14 @@ func (e *env) runSequence(caseID string, rng *rand.Rand, maxTries, nOps int) {
 			if j.LastEmitTimestamp != nil {
 				if t, err := time.Parse(time.RFC3339Nano, *j.LastEmitTimestamp); err == nil && t.Year() > 1970 {
 					ok = true
+					// the reported instant is the instant of the attempt (bracketed by the harness around Notify; 2 s of
+					// tolerance for rounding), whatever time zone the process runs in
+					if !h.attFrom.IsZero() && (t.Before(h.attFrom.Add(-2*time.Second)) || t.After(h.attTo.Add(2*time.Second))) {
+						ok = false
+						r.Count("reported_attempt_times_outside_the_bracket", 1)
+					} else if !h.attFrom.IsZero() {
+						r.Count("reported_attempt_times_inside_the_bracket", 1)
+					}
 				}
 			}
 			if !ok {
@@ -637,14 +647,14 @@ func (e *env) runSequence(caseID string, rng *rand.Rand, maxTries, nOps int) {
 				if w.Code != 200 || !row.present || !row.active || row.count != 0 {
 					r.Violate("reregister|inactive|status="+strconv.Itoa(w.Code)+"|active="+fmt.Sprint(row.active)+"|count-zero="+fmt.Sprint(row.count == 0),
 						fmt.Sprintf("re-registering an INACTIVE url: answered %d %s; stored active=%v errors_count=%d (expected reactivated with zero count)", w.Code, clip(w.Body.String()), row.active, row.count), caseID, detail(nil))
-					h.active, h.count, h.attempted = true, 0, false
+					h.active, h.count, h.attempted, h.attFrom = true, 0, false, time.Time{}
 					resync(i)
 					continue
 				}
 				if j.Active == nil || !*j.Active || j.ErrorsCount == nil || *j.ErrorsCount != 0 {
 					r.Violate("reregister|inactive|response-body", fmt.Sprintf("re-registering an INACTIVE url answered %s (expected active=true, errorsCount=0)", clip(w.Body.String())), caseID, detail(nil))
 				}
-				h.active, h.count, h.attempted = true, 0, false
+				h.active, h.count, h.attempted, h.attFrom = true, 0, false, time.Time{}
 				same := false
 				for _, x := range h.auths {
 					if x == a {
@@ -757,7 +767,9 @@ func (e *env) runSequence(caseID string, rng *rand.Rand, maxTries, nOps int) {
 				sc.event = event
 				sc.mu.Unlock()
 			}
+			notifyFrom := time.Now()
 			e.st.Svc.Webhooks.Notify(event) // synchronous: events one at a time
+			notifyTo := time.Now()
 			r.Count("events_notified", 1)
 			calls := e.tg.Calls()
 			per := map[string][]call{}
@@ -804,7 +816,7 @@ func (e *env) runSequence(caseID string, rng *rand.Rand, maxTries, nOps int) {
 							}
 						}
 					}
-					hk.attempted = false // what was really attempted is unknown to the model
+					hk.attempted, hk.attFrom = false, time.Time{} // what was really attempted is unknown to the model
 					resync(k)
 					continue
 				}
@@ -870,6 +882,7 @@ func (e *env) runSequence(caseID string, rng *rand.Rand, maxTries, nOps int) {
 					}
 				}
 				hk.attempted, hk.lastOutcome = true, o
+				hk.attFrom, hk.attTo = notifyFrom, notifyTo
 				row, err := e.readRow(urls[k])
 				if err != nil {
 					r.Violate("harness|sql", err.Error(), caseID, nil)
@@ -948,7 +961,7 @@ func checkAuthHeaders(h map[string][]string, a auth, all []auth) string {
 }
 
 func body(r *ev.Run) {
-	r.Rule("seeded sequences of N operations over 4 URLs: register (BEARER | CUSTOM_HEADER with 5 header names | no requiredAuth; re-registration mostly with the same, sometimes other credentials) through POST /api/v1/webhook, DELETE, GET ?url=, restart (database.Init on the same file + new services), and notify = synchronous WebhooksService.Notify(event) with a scripted per-URL outcome from {200, 201, 500, 404, transport error, unreadable body}; max_tries in {1,2,3,10}; failure probability in {0.25,0.6,0.9}. Every sequence is executed twice: scripted WebhookTargetClient, and the production client against an httptest server. evaluations = executed (sequence, mode); distinct = distinct (mode, max_tries, operation/outcome string); non-trivial = the sequence delivered at least one failure and reached a deactivation or a reactivation in the model.")
+	r.Rule("seeded sequences of N operations over 4 URLs: register (BEARER | CUSTOM_HEADER with 5 header names | no requiredAuth; re-registration mostly with the same, sometimes other credentials) through POST /api/v1/webhook, DELETE, GET ?url=, restart (database.Init on the same file + new services), and notify = synchronous WebhooksService.Notify(event) with a scripted per-URL outcome from {200, 201, 500, 404, transport error, unreadable body}; max_tries in {1,2,3,10}; failure probability in {0.25,0.6,0.9}. A third of the sequences runs with a process time zone other than UTC; the reported time of the last attempt must lie in the bracket the harness measured around the Notify call (2 s of tolerance). Every sequence is executed twice: scripted WebhookTargetClient, and the production client against an httptest server. evaluations = executed (sequence, mode); distinct = distinct (mode, max_tries, operation/outcome string); non-trivial = the sequence delivered at least one failure and reached a deactivation or a reactivation in the model.")
 	r.Assume("'non-200 reply' is taken literally (201 counts as a failure)",
 		"after re-registering an inactive URL with different credentials either set of credentials is accepted on the POST (statement silent)",
 		"last attempt status: must contain the HTTP status code for a reply, be non-empty for a transport/body error; last attempt time: any time after 1970",
@@ -998,6 +1011,13 @@ func body(r *ev.Run) {
 				}
 				// both modes of a sequence draw from the same stream
 				rng := r.Rand(fmt.Sprintf("seq/%d", i))
+				if i%3 == 1 {
+					// the service process runs in a time zone other than UTC
+					old := time.Local
+					time.Local = time.FixedZone("VERIF", []int{7200, -12600, 19800, 45900, -39600}[(i/3)%5])
+					defer func() { time.Local = old }()
+					r.Count("sequences_in_a_non_utc_time_zone", 1)
+				}
 				mt := tries[i%len(tries)]
 				n := nOps
 				if mt == 10 {
